@@ -20,6 +20,7 @@ func RunTcbLevelsCase(cs map[string]any, id int, seed int64) Result {
 	if svn1 != 0 {
 		w["modBranch"] = "modOk"
 	}
+	w["sgxOrder"] = []string{"canon", "reversed", "interleaved"}[id%3] // the platform's SVNs are found by OID, wherever the certificate lists them
 	c := gen.Build(w, gen.Params{Seed: rng.Int63()})
 	tee := gen.FieldOf("body", "tee_tcb_svn", c.Q.Body)
 	call := Event{"ev": "Call", "case": id, "input": cs}
